@@ -654,7 +654,9 @@ Definition s_details (cs : list scase) : list (list Z) := map scase_bad cs.
 
 (* a derived readout: the operation, the settings of the original (read back from the loaded object), the changes
    asked for, and the settings of the derived object (None: the operation raised) *)
-Inductive dop := DReplace | DSetter | DCopy.
+Inductive dop := DReplace | DSetter | DCopy
+  | DSweep.   (* Processor.replace({key: value}) on the loaded detector (one point of a parameter sweep): the
+                 settings are ALL the settings of the detector, each of them is carried *)
 Record dcase := DCase { dc_op : dop; dc_settings : list entry; dc_changes : list entry;
                         dc_observed : option (list entry) }.
 
@@ -663,9 +665,13 @@ Definition dcase_bad (carried : list string) (c : dcase) : bool :=
   | None =>
       (* the generator only asks for new times that are valid for the start time: that must work; a raise on a
          change that leaves `times` alone is not judged here (Readout(times=<ndarray>) raises, finding C02-F18) *)
-      has_key (readout_key "times") (dc_changes c)
+      has_key (readout_key "times") (dc_changes c) || match dc_op c with DSweep => true | _ => false end
   | Some obs =>
-      match bad_settings (derive (map readout_key carried) (dc_settings c) (dc_changes c)) obs with
+      let keys := match dc_op c with
+                  | DSweep => map fst (dc_settings c)
+                  | _ => map readout_key carried
+                  end in
+      match bad_settings (derive keys (dc_settings c) (dc_changes c)) obs with
       | [] => false
       | _ => true
       end
